@@ -126,6 +126,12 @@ def reset_process_state():
     store = ThreadLocal.__dict__.get("_ThreadLocal__store")
     if store is not None:
         store.clear()
+    try:
+        # (a per-process cache of the code under test: what it costs to fill depends on what ran earlier in the process)
+        from deep.processor.context import trigger_context as _tc
+        getattr(_tc, "_OWN_VARIABLES", {}).clear()
+    except ImportError:
+        pass
     from deep.config.config_service import ConfigService
     from deep.config.tracepoint_config import TracepointConfigService
     d = ConfigService.__init__.__defaults__
